@@ -23,7 +23,7 @@ theorem mainBlock_r2owa {a : Arch} {cur : Nat} (s : RtlState) (p : PortsIn) (h :
   unfold Rtl.mainBlock
   simp only [h]
   rw [if_neg (by decide), if_neg (by decide), if_neg (by decide), if_neg (by decide), if_neg (by decide),
-    if_neg (by decide), if_neg (by decide), if_neg (by decide), if_neg (by decide), if_pos True.intro]
+    if_neg (by decide), if_neg (by decide), if_neg (by decide), if_neg (by decide), if_neg (by decide), if_pos True.intro]
 
 theorem mainBlock_i2rw {a : Arch} {cur : Nat} (s : RtlState) (p : PortsIn) (h : Rtl.curOp a cur = some "i2rw") :
     Rtl.mainBlock a cur s p =
@@ -36,7 +36,7 @@ theorem mainBlock_i2rw {a : Arch} {cur : Nat} (s : RtlState) (p : PortsIn) (h : 
   unfold Rtl.mainBlock
   simp only [h]
   rw [if_neg (by decide), if_neg (by decide), if_neg (by decide), if_neg (by decide), if_neg (by decide),
-    if_neg (by decide), if_neg (by decide), if_neg (by decide), if_pos True.intro]
+    if_neg (by decide), if_neg (by decide), if_neg (by decide), if_neg (by decide), if_pos True.intro]
 
 /-- only `r2owa` writes `waitsm` -/
 theorem mainBlock_waitsm {a : Arch} {cur : Nat} (s : RtlState) (p : PortsIn) (h : Rtl.curOp a cur ≠ some "r2owa") :
@@ -60,6 +60,11 @@ theorem mainBlock_waitsm {a : Arch} {cur : Nat} (s : RtlState) (p : PortsIn) (h 
     by_cases h4 : op ∈ Rtl.binops
     · rw [if_pos h4]
     rw [if_neg h4]
+    by_cases h4b : op ∈ Rtl.pipeOps
+    · rw [if_pos h4b]
+      simp only [RtlState.setPipe]
+      (repeat' split) <;> rfl
+    rw [if_neg h4b]
     by_cases h5 : op = "j"
     · rw [if_pos h5]
     rw [if_neg h5]
